@@ -542,6 +542,7 @@ def runLine (ctx : Ctx) (line : String) : String :=
   | ["pt.decunc", d, t] => opPtDecUnc d t
   | ["fp.sqrt", v] => opFpSqrt ctx v
   | ["pt.fromx", x, b] => opFromX x b
+  | ["fp.hist", x, b, v] => opFromX x b ++ " " ++ opFpSqrt ctx v
   | ["grp", prog] => opGrp ctx prog
   | ["commit", p] => opCommit ctx p
   | ["ptab", i, k, j] => opPtab ctx i k j
